@@ -598,26 +598,43 @@ def recover (cfg : Cfg) (fs : FS) : Except Err (Mem × FS) :=
   | none => .ok (out.mem, out.fs)
   | some e => .error e
 
-/-- where the process dies in one incarnation -/
+/-- an operation through the open handle that returns to the caller -/
+inductive HOp where
+  | commit (tx : Tx)
+  | compact
+deriving Repr, Inhabited
+
+/-- where the process dies in one incarnation (`k` past the last I/O step of the operation: right
+    after it returned) -/
 inductive Death where
   | inOpen (k : Nat)                 -- inside `open`, at its I/O step k
   | inCommit (tx : Tx) (k : Nat)     -- inside the commit of `tx`, at its I/O step k
+  | inCompact (k : Nat)              -- inside `compact`, at its I/O step k
+  | inClose (k : Nat)                -- inside `checkpoint_on_close`, at its I/O step k
   | idle                             -- between two operations
 deriving Repr, Inhabited
 
-/-- one incarnation of the process: open, some commits that return, death -/
+/-- one incarnation of the process: open, some commits / compactions that return, death -/
 structure Round where
-  commits : List Tx
+  ops : List HOp
   death : Death
   mode : CrashMode
 deriving Repr, Inhabited
 
-/-- commits run to completion through one handle -/
-def runCommits (cfg : Cfg) : FS → Mem → List Tx → FS × Mem
+def commitsOf : List HOp → List Tx
+  | [] => []
+  | .commit tx :: rest => tx :: commitsOf rest
+  | .compact :: rest => commitsOf rest
+
+/-- operations run to completion through one handle -/
+def runOps (cfg : Cfg) : FS → Mem → List HOp → FS × Mem
   | fs, m, [] => (fs, m)
-  | fs, m, tx :: rest =>
+  | fs, m, .commit tx :: rest =>
     let out := run (commitA cfg m fs.pv fs.wf tx) .none fs m
-    runCommits cfg out.fs out.mem rest
+    runOps cfg out.fs out.mem rest
+  | fs, m, .compact :: rest =>
+    let out := run (compactA cfg m fs.pv fs.wf) .none fs m
+    runOps cfg out.fs out.mem rest
 
 /-- the files after one incarnation that started on the files `fs` -/
 def Round.after (cfg : Cfg) (fs : FS) (r : Round) : FS :=
@@ -625,18 +642,26 @@ def Round.after (cfg : Cfg) (fs : FS) (r : Round) : FS :=
   | .inOpen k => (run (openA cfg fs.pv fs.wf) (.crashAt k) fs {}).fs.crash r.mode
   | .idle =>
     let o := run (openA cfg fs.pv fs.wf) .none fs {}
-    (runCommits cfg o.fs o.mem r.commits).1.crash r.mode
+    (runOps cfg o.fs o.mem r.ops).1.crash r.mode
   | .inCommit tx k =>
     let o := run (openA cfg fs.pv fs.wf) .none fs {}
-    let s := runCommits cfg o.fs o.mem r.commits
+    let s := runOps cfg o.fs o.mem r.ops
     (run (commitA cfg s.2 s.1.pv s.1.wf tx) (.crashAt k) s.1 s.2).fs.crash r.mode
+  | .inCompact k =>
+    let o := run (openA cfg fs.pv fs.wf) .none fs {}
+    let s := runOps cfg o.fs o.mem r.ops
+    (run (compactA cfg s.2 s.1.pv s.1.wf) (.crashAt k) s.1 s.2).fs.crash r.mode
+  | .inClose k =>
+    let o := run (openA cfg fs.pv fs.wf) .none fs {}
+    let s := runOps cfg o.fs o.mem r.ops
+    (run (closeA cfg s.2 s.1.pv s.1.wf) (.crashAt k) s.1 s.2).fs.crash r.mode
 
 /-- what the caller has seen of the incarnation -/
 def Round.obs (r : Round) : Spec.RoundObs :=
   match r.death with
   | .inOpen _ => ⟨[], none⟩
-  | .idle => ⟨r.commits, none⟩
-  | .inCommit tx _ => ⟨r.commits, some tx⟩
+  | .inCommit tx _ => ⟨commitsOf r.ops, some tx⟩
+  | _ => ⟨commitsOf r.ops, none⟩
 
 def afterRounds (cfg : Cfg) : FS → List Round → FS
   | fs, [] => fs
